@@ -28,6 +28,11 @@ def check(prog, run):
     from . import C09
     run.assume("R-rejected is the dependence (taint) reading of C09 restricted to the plotted tables: necessary for 'no marker for rejected poles', not a proof that the right poles are blanked")
     C09.classes_rules(prog, run, C09.CLASSES, {"reach": "R-rejected"}, only=("Fn_poles", "Xi_poles"))
+    run.rule("R-stateless", "the diagram routines change no module-level table and no memoised value in place (an order axis kept by a cache and scaled in place is "
+             "wrong for every later diagram of the same shape)", 3)
+    from ..effects import shared_state_rule
+    reach_ = sorted(q for q in prog.reachable([prog.func("functions.plot." + n_).qual for n_ in ("stab_plot", "cluster_plot", "CMIF_plot")]) if q in prog.functions)
+    shared_state_rule(prog, run, "R-stateless", reach_, "a later diagram is drawn with the values of an earlier one")
     run.rule("R-nothing-skipped", "a branch of a diagram that draws nothing is taken only when every kind of pole its sibling branches would draw is absent: "
              "its test looks at every label (stable 1, unstable 0) for which a sibling draws markers", 0)
     for name in ("stab_plot", "cluster_plot"):
